@@ -8,6 +8,7 @@ import SugarModel.Lemmas.WF
 import SugarModel.Lemmas.WireLemmas
 import SugarModel.Lemmas.WFTable
 import SugarModel.Lemmas.WFWitness
+import SugarModel.Lemmas.AclLemmas
 namespace Sugar.Props.C12
 open Sugar Sugar.Wire Sugar.WFWitness
 
@@ -111,6 +112,21 @@ theorem getrange_substr_never_panic (c : Ctx) (cmd : List Bytes) (s : State) (w 
 theorem type_never_panics (c : Ctx) (cmd : List Bytes) (s : State) (w : String) :
     ((handleType c cmd).run c s).2 ≠ .panic w :=
   handleType_no_panic c cmd s w
+
+/-- **ACL SETUSER cannot take the server down** (repaired in /repo by a `fix:` commit; before it `ACL SETUSER`
+    without a user name read `cmd[0]` of an empty slice and an empty rule token — or an empty user name — read
+    `str[0]`: index out of range, the former class `acl-setuser-panic`). For every ACL state, every argument
+    vector and every connection the handler does not end in a panic: the arity guard answers the command without
+    a user name, UpdateUser refuses an empty token before its loops, and every later index into a token is
+    guarded by a length test (`Acl.updateTok_cons_no_panic`). -/
+theorem acl_setuser_never_panics (a : Acl.AclState) (cid : Nat) (cmd : List Bytes) (sha : Bytes)
+    (h1 : toLower (cmd.headD []) = b "acl") (h2 : toLower (cmd.getD 1 []) = b "setuser") :
+    (Acl.aclHandler a cid cmd sha).2 ≠ .panic :=
+  Acl.aclHandler_setuser_no_panic a cid cmd sha h1 h2
+
+/-- the repaired answers on the two inputs of the former class -/
+example : (Acl.aclHandler ⟨[], [], [], true⟩ 0 [b "acl", b "setuser"] []).2 matches .err _ := by decide
+example : (Acl.aclHandler ⟨[], [], [], true⟩ 0 [b "acl", b "setuser", b "alice", []] []).2 matches .err _ := by decide
 
 /-- … and the slice the handler takes is within the value for every start and end -/
 theorem getrange_slice_within_value (value : Bytes) (start end_ : Int) :
